@@ -88,10 +88,11 @@ def st_case(draw, tier):
         # Taylor recipe of S^-1/2 = (1 + sum_n S^(n))^-1/2: cheap at any
         # order, checked with non-commuting matrices far beyond the orders
         # whose overlaps can be derived
+        mo = draw(st.sampled_from([1, 2, 2, 2, 3]))
         return {"variant": variant, "sub": "s_taylor",
                 "singles": draw(st.booleans()), "part": "mp",
-                "order": draw(st.integers(0, 9)),
-                "min_order": draw(st.sampled_from([1, 2, 2, 2, 3])),
+                "order": draw(st.integers(0, 7 if mo == 1 else 9)),
+                "min_order": mo,
                 "mseed": draw(st.integers(0, 2**31))}
     i1, i2 = draw(st_idx(sp1, sp2))
     return {"variant": variant, "sp1": sp1, "sp2": sp2, "order": order,
@@ -120,6 +121,10 @@ def run_case(case):
     isr = isr_obj(case["variant"], case["part"], case["singles"])
     if case.get("sub") == "s_taylor":
         n, mo = case["order"], case["min_order"]
+        # the library enumerates product(range(mo, n + 1), repeat=k) for
+        # every k <= n // mo: keep that enumeration small
+        if mo < 1 or (n - mo + 1) ** (n // mo) > 10**6:
+            raise BadCase("recipe enumeration too large")
         r.sample = (f"IntermediateStates({case['variant']}).expand_S_taylor("
                     f"{n}, {mo})")
         ok, rec = lib_call(r, "expand_S_taylor", isr.expand_S_taylor, n, mo)
